@@ -224,6 +224,9 @@ def run_history(ctx, o, seq):
                         b.blob[:b.actual_len] != c.blob[:c.actual_len] or b.actual_len != c.actual_len):
                     o.cls = "history-dependent"
                     return o.viol("history|read-back", "after operations %r reading back does not return the current content" % ([HIST_OPS[x] for x in seq[:step + 1]],))
+    dirty = shapes.default_objects_dirty()
+    if dirty:
+        return o.viol("isolation|default-objects", "after operations %r: %s" % ([HIST_OPS[x] for x in seq], dirty))
     o.extra = {"history_writes": writes}
     return o
 
